@@ -9,7 +9,8 @@ impl<const BITS: usize, const LIMBS: usize> Uint<BITS, LIMBS> {
     #[inline]
     #[must_use]
     pub fn checked_log(self, base: Self) -> Option<usize> {
-        if base < Self::from(2) || self.is_zero() {
+        // `base <= 1` rather than `base < 2`: the constant 2 does not fit `BITS < 2`.
+        if base <= Self::ONE || self.is_zero() {
             return None;
         }
         Some(self.log(base))
@@ -21,7 +22,10 @@ impl<const BITS: usize, const LIMBS: usize> Uint<BITS, LIMBS> {
     #[inline]
     #[must_use]
     pub fn checked_log10(self) -> Option<usize> {
-        self.checked_log(Self::from(10))
+        if self.is_zero() {
+            return None;
+        }
+        Some(self.log10())
     }
 
     /// Returns the base 2 logarithm of the number, rounded down.
@@ -32,7 +36,10 @@ impl<const BITS: usize, const LIMBS: usize> Uint<BITS, LIMBS> {
     #[inline]
     #[must_use]
     pub fn checked_log2(self) -> Option<usize> {
-        self.checked_log(Self::from(2))
+        if self.is_zero() {
+            return None;
+        }
+        Some(self.log2())
     }
 
     /// Returns the logarithm of the number, rounded down.
@@ -96,6 +103,11 @@ impl<const BITS: usize, const LIMBS: usize> Uint<BITS, LIMBS> {
     #[inline]
     #[must_use]
     pub fn log10(self) -> usize {
+        if BITS < 4 {
+            // The constant 10 does not fit; every non-zero value is below 10.
+            assert!(!self.is_zero());
+            return 0;
+        }
         self.log(Self::from(10))
     }
 
@@ -107,7 +119,9 @@ impl<const BITS: usize, const LIMBS: usize> Uint<BITS, LIMBS> {
     #[inline]
     #[must_use]
     pub fn log2(self) -> usize {
-        self.log(Self::from(2))
+        // Does not go through `log`: the constant 2 does not fit `BITS < 2`.
+        assert!(!self.is_zero());
+        self.bit_len() - 1
     }
 
     /// Double precision logarithm.
